@@ -39,7 +39,7 @@ func fullRangeElem(v ssa.Value) (ssa.Value, bool) {
 	if !ok {
 		return nil, false
 	}
-	inc, ok := ia.Index.(*ssa.BinOp)
+	inc, ok := reduceIndex(ia.Index).(*ssa.BinOp)
 	if !ok || inc.Op != token.ADD {
 		return nil, false
 	}
@@ -67,12 +67,79 @@ func fullRangeElem(v ssa.Value) (ssa.Value, bool) {
 			continue
 		}
 		if call, ok := b.Y.(*ssa.Call); ok {
-			if bi, ok := call.Call.Value.(*ssa.Builtin); ok && bi.Name() == "len" && call.Call.Args[0] == ia.X {
+			if bi, ok := call.Call.Value.(*ssa.Builtin); ok && bi.Name() == "len" && (call.Call.Args[0] == ia.X || stripConv(resolve(call.Call.Args[0])) == stripConv(resolve(ia.X))) {
 				return ia.X, true
 			}
 		}
 	}
 	return nil, false
+}
+
+// reduceIndex: an index that is the position found by a search merged with the "not found" -1 (`i := slices.IndexFunc(...)`
+// expanded in place) is, wherever it is used as an index, the position found.
+func reduceIndex(v ssa.Value) ssa.Value {
+	phi, ok := v.(*ssa.Phi)
+	if !ok {
+		return v
+	}
+	var rest ssa.Value
+	for _, e := range phi.Edges {
+		if k, isK := constInt(e); isK && k < 0 {
+			continue
+		}
+		if rest != nil && rest != e {
+			return v
+		}
+		rest = e
+	}
+	if rest == nil {
+		return v
+	}
+	return rest
+}
+
+// indexEdgeConds: for an element access whose index is such a merge, the conditions under which the position was found.
+func indexEdgeConds(v ssa.Value) []condEdge {
+	u, ok := v.(*ssa.UnOp)
+	if !ok {
+		return nil
+	}
+	ia, ok := u.X.(*ssa.IndexAddr)
+	if !ok {
+		return nil
+	}
+	phi, ok := ia.Index.(*ssa.Phi)
+	if !ok {
+		return nil
+	}
+	var out []condEdge
+	for i, e := range phi.Edges {
+		if k, isK := constInt(e); isK && k < 0 {
+			continue
+		}
+		pred := phi.Block().Preds[i]
+		out = append(out, dominatingConds(pred)...)
+		out = append(out, edgeCond(pred, phi.Block())...)
+	}
+	return out
+}
+
+// sameElem: two loads of the same element of the same slice (the same position of a scan).
+func sameElem(a, b ssa.Value) bool {
+	if a == b {
+		return true
+	}
+	ua, ok1 := resolve(a).(*ssa.UnOp)
+	ub, ok2 := resolve(b).(*ssa.UnOp)
+	if !ok1 || !ok2 {
+		return false
+	}
+	ia, ok1 := ua.X.(*ssa.IndexAddr)
+	ib, ok2 := ub.X.(*ssa.IndexAddr)
+	if !ok1 || !ok2 {
+		return false
+	}
+	return stripConv(resolve(ia.X)) == stripConv(resolve(ib.X)) && reduceIndex(ia.Index) == reduceIndex(ib.Index)
 }
 
 // R04.1 host resolution order.
